@@ -1,7 +1,7 @@
 //! property: C13
 //! unit: V-C13-rho
 //! tier: quick
-//! fns: linfa_svm::solver_smo::SolverState::calculate_rho (C-formulations), linfa_svm::solver_smo::SolverState::threshold_between
+//! fns: linfa_svm::solver_smo::SolverState::calculate_rho (C-formulations), linfa_svm::solver_smo::SolverState::calculate_rho_nu (the two class thresholds), linfa_svm::solver_smo::SolverState::threshold_between
 //@ extract TB from algorithms/linfa-svm/src/solver_smo.rs anchor "fn threshold_between(lb: F, ub: F) -> F {" body
 //@ rewrite TB "lb.is_finite()" => "is_finite_abs(lb)"
 //@ rewrite TB "ub.is_finite()" => "is_finite_abs(ub)"
@@ -19,6 +19,19 @@
 //@ rewrite RHO "Self::threshold_between(lb, ub)" => "threshold_between(lb, ub)"
 //@ insert RHO before-brace "for i in 0..self.nactive() " : invariant self.wf(), nfree <= i, (nfree == 0 ==> bounds_ok(self, i as int, lb, ub)), ((forall|t: int| 0 <= t < i ==> #[trigger] self.alpha@[t].upper || self.alpha@[t].lower) ==> nfree == 0), -INF <= lb < INF, -INF < ub <= INF,
 //@ insert RHO before "if nfree > 0 {" : proof { if nfree == 0 && self.nact >= 1 { assert(bounds_ok(self, self.nact as int, lb, ub)); assert(fin(self.gradient@[0])); assert(if self.alpha@[0].upper == self.targets@[0] { lb >= yg_of(self, 0) } else { ub <= yg_of(self, 0) }); assert(-INF < yg_of(self, 0) < INF); assert(lb != -INF || ub != INF); } }
+//@ extract RHONU from algorithms/linfa-svm/src/solver_smo.rs anchor "let (mut nfree1, mut nfree2) = (0, 0);" until "self.r = (r1 + r2) / F::cast(2.0);" after "pub fn calculate_rho_nu(&mut self) -> F {"
+//@ rewrite RHONU "let (mut nfree1, mut nfree2) = (0, 0);" => "let (mut nfree1, mut nfree2): (usize, usize) = (0, 0);"
+//@ rewrite RHONU "let (mut sum_free1, mut sum_free2) = (F::zero(), F::zero());" => "let (mut sum_free1, mut sum_free2): (i128, i128) = (0, 0);"
+//@ rewrite RHONU "let (mut ub1, mut ub2) = (F::infinity(), F::infinity());" => "let (mut ub1, mut ub2): (i128, i128) = (INF, INF);"
+//@ rewrite RHONU "let (mut lb1, mut lb2) = (-F::infinity(), -F::infinity());" => "let (mut lb1, mut lb2): (i128, i128) = (-INF, -INF);"
+//@ rewrite RHONU "F::max(" => "max_abs("
+//@ rewrite RHONU "F::min(" => "min_abs("
+//@ rewrite RHONU "sum_free1 += self.gradient[i];" => "sum_free1 = add_free(sum_free1, self.gradient[i]);"
+//@ rewrite RHONU "sum_free2 += self.gradient[i];" => "sum_free2 = add_free(sum_free2, self.gradient[i]);"
+//@ rewrite RHONU "sum_free1 / F::cast(nfree1)" => "mean_abs(sum_free1, nfree1)"
+//@ rewrite RHONU "sum_free2 / F::cast(nfree2)" => "mean_abs(sum_free2, nfree2)"
+//@ rewrite RHONU "Self::threshold_between(" => "threshold_between("
+//@ insert RHONU before-brace "for i in 0..self.nactive() " : invariant self.wf(), (nfree1 == 0 ==> class_bounds_ok(self, i as int, true, lb1, ub1)), (nfree2 == 0 ==> class_bounds_ok(self, i as int, false, lb2, ub2)), -INF <= lb1 < INF, -INF < ub1 <= INF, -INF <= lb2 < INF, -INF < ub2 <= INF, nfree1 <= i, nfree2 <= i, ((forall|t: int| 0 <= t < i && self.targets@[t] ==> #[trigger] self.alpha@[t].upper || self.alpha@[t].lower) ==> nfree1 == 0), ((forall|t: int| 0 <= t < i && !self.targets@[t] ==> #[trigger] self.alpha@[t].upper || self.alpha@[t].lower) ==> nfree2 == 0),
 //@ expect-fail vacuity_guard_rho
 use vstd::prelude::*;
 verus! {
@@ -54,6 +67,11 @@ pub open spec fn bounds_ok(s: &SolverV, n: int, lb: i128, ub: i128) -> bool {
     &&& (lb != -INF ==> exists|i: int| 0 <= i < n && (#[trigger] s.alpha@[i]).upper == s.targets@[i] && lb == yg_of(s, i))
     &&& (ub != INF ==> exists|i: int| 0 <= i < n && (#[trigger] s.alpha@[i]).upper != s.targets@[i] && ub == yg_of(s, i))
 }
+// nu-formulations, class by class: G_i <= r_class for a variable at its bound, G_i >= r_class for a variable at zero
+pub open spec fn class_bounds_ok(s: &SolverV, n: int, pos: bool, lb: i128, ub: i128) -> bool {
+    &&& (lb == -INF || fin(lb)) && (ub == INF || fin(ub))
+    &&& forall|i: int| 0 <= i < n && s.targets@[i] == pos ==> ((#[trigger] s.alpha@[i]).upper || s.alpha@[i].lower) && (if s.alpha@[i].upper { lb >= s.gradient@[i] } else { ub <= s.gradient@[i] })
+}
 impl SolverV {
     pub open spec fn wf(&self) -> bool {
         self.nact <= self.targets@.len() && self.targets@.len() == self.alpha@.len() && self.alpha@.len() == self.gradient@.len()
@@ -72,6 +90,18 @@ impl SolverV {
         ensures (forall|i: int| 0 <= i < self.nact ==> #[trigger] self.alpha@[i].upper || self.alpha@[i].lower) && self.nact >= 1 ==> exists|lb: i128, ub: i128| #[trigger] bounds_ok(self, self.nact as int, lb, ub) && (lb <= ub ==> lb <= r <= ub && r != INF && r != -INF),
     {
 /*@RHO*/
+    // ---- calculate_rho_nu up to the two class thresholds r1 (class +1) and r2 (class -1), extracted from /repo on every run ----
+    // (the published pair is rho = (r1 - r2)/2 and r = (r1 + r2)/2: K-c13_rho_nu_*)
+    pub fn class_thresholds(&self) -> (r: (i128, i128))
+        requires self.wf(),
+        ensures
+            (forall|i: int| 0 <= i < self.nact && self.targets@[i] ==> #[trigger] self.alpha@[i].upper || self.alpha@[i].lower) ==> exists|lb: i128, ub: i128| #[trigger] class_bounds_ok(self, self.nact as int, true, lb, ub) && (lb <= ub ==> lb <= r.0 <= ub),
+            (forall|i: int| 0 <= i < self.nact && !self.targets@[i] ==> #[trigger] self.alpha@[i].upper || self.alpha@[i].lower) ==> exists|lb: i128, ub: i128| #[trigger] class_bounds_ok(self, self.nact as int, false, lb, ub) && (lb <= ub ==> lb <= r.1 <= ub),
+    {
+/*@RHONU*/
+        proof { if nfree1 == 0 { assert(class_bounds_ok(self, self.nact as int, true, lb1, ub1)); } if nfree2 == 0 { assert(class_bounds_ok(self, self.nact as int, false, lb2, ub2)); } }
+        (r1, r2)
+    }
     pub fn vacuity_guard_rho(&self) -> (r: i128)
         requires self.wf(),
         ensures false,
